@@ -797,7 +797,10 @@ def judge_events(events, timeout=3000):
     try:
         clean = [{k: v for k, v in e.items() if k not in ('kind', 'aim')} for e in events]
         tf = tlc.write_json(work, 'trace.json', clean)
-        res = tlc.run('ElasticFiles', 'SPECIFICATION Spec\n', dump=True, env={'TRACE_FILE': tf}, workdir=work, workers=1, timeout=timeout)
+        light = sum(len(e['f']['atoms']) for e in events) < 1500
+        jvm = ('-XX:TieredStopAtLevel=1 ' if light else '') + '-XX:ParallelGCThreads=2 -XX:CICompilerCount=%d' % (1 if light else 2)
+        res = tlc.run('ElasticFiles', 'SPECIFICATION Spec\n', dump=True, env={'TRACE_FILE': tf, '_JAVA_OPTIONS': jvm}, workdir=work, workers=1,
+                      timeout=timeout)
         if res.violated:
             raise tlc.MachineryError('ElasticFiles violated ' + str(res.violated))
         verdicts = {st['tid']: st['verdict'] for st in res.states() if st['verdict']['v'] != 'pending'}
